@@ -3,23 +3,62 @@
    (Model/GaussSeidel.v); sa_device = the code-shaped per-device scan (Model/SemiAsync.v). *)
 From Coq Require Import QArith Qabs List Arith ZArith Bool Permutation.
 From MdpaxV Require Import Model.ListUtil Model.QFun Model.MDP Model.Bellman Model.Batching Model.Kernel Model.SemiAsync
-     Model.GaussSeidel Proofs.ContractionP Proofs.C01P Proofs.GaussSeidelP Proofs.C06P Proofs.C06DeviceP Proofs.C01GsP.
+     Model.GaussSeidel Proofs.ContractionP Proofs.C01P Proofs.GaussSeidelP Proofs.C06P Proofs.C06DeviceP Proofs.C06CompP Proofs.C01GsP.
 Import ListNotations.
 Open Scope Q_scope.
 
-(* PARTIAL (what is proved): the scan of ONE device -- carried vector, masked scatter, padding
-   rows, any resolution order of duplicate scatter indices -- outputs exactly the block
-   Gauss-Seidel values: a real slot of batch k gets T applied to the vector in which the states
-   of batches < k of this device are already updated; padding slots never influence a real one.
-   (what is missing: composing this with the positions of prepare/unbatch across devices into one
-   statement about savi_sweep; the two halves are C18.prepare_places_in_order / unbatch_any_result
-   and reorder_natural below, and the composition is exercised exactly by the correspondence.) *)
-Theorem savi_device_scan_is_block_gs_partial : forall (M : mdp), wf M -> forall g zidx pad_wins padval bs cur f,
+(* THE PROPERTY, full strength, about the code-shaped sweep `savi_sweep` (permute, pad with the all-zero row,
+   reshape into devices x batches x slots by the GENERATED layout, per-device scan whose carried vector is
+   updated by a masked scatter, un-batch, undo the permutation): for every MDP, every layout (n_states,
+   max_batch_size >= 1, devices >= 1), every update order that is a permutation of the states (the fixed order
+   when sigma = None), every resolution of duplicate scatter indices, every padding value and every index
+   assigned to the padding row, the sweep returns one value per state, in natural order, and that value is the
+   block Gauss-Seidel update for the partition the layout induces on the order: T applied to the vector in
+   which exactly the states of earlier batches OF THE SAME DEVICE are already updated. *)
+Theorem savi_sweep_is_block_gauss_seidel : forall (M : mdp), wf M ->
+  forall (g : Q) (zidx : nat) (pad_wins : bool) (padval : Q) (n mb d : Z),
+  n = Z.of_nat (nS M) -> (1 <= n)%Z -> (1 <= mb)%Z -> (1 <= d)%Z ->
+  forall order, Permutation order (seq 0 (nS M)) ->
+  forall (sigma : option (list nat)) (V : list Q),
+  order = match sigma with Some s => s | None => seq 0 (nS M) end -> (length V = nS M)%nat ->
+  (length (savi_sweep M n mb d zidx pad_wins padval sigma g V) = nS M)%nat /\
+  forall s, (s < nS M)%nat ->
+    qnth (savi_sweep M n mb d zidx pad_wins padval sigma g V) s == gs_op M g (parts_of n mb d order) (qnth V) s.
+Proof. exact savi_sweep_is_gs_op. Qed.
+Print Assumptions savi_sweep_is_block_gauss_seidel.
+
+(* the induced partition is a partition: every state in exactly one batch of exactly one device *)
+Theorem savi_partition_is_partition : forall (M : mdp) (n mb d : Z),
+  n = Z.of_nat (nS M) -> (1 <= n)%Z -> (1 <= mb)%Z -> (1 <= d)%Z ->
+  forall order, Permutation order (seq 0 (nS M)) ->
+  covers (parts_of n mb d order) (nS M) /\
+  Forall (fun dev => NoDup (concat dev)) (parts_of n mb d order) /\
+  disjoint_devices (parts_of n mb d order).
+Proof.
+  exact (fun M n mb d Hn H1 H2 H3 order HP =>
+    conj (parts_cover M n mb d Hn H1 H2 H3 order HP)
+      (conj (parts_nodup M n mb d Hn H1 H2 H3 order HP) (parts_disjoint M n mb d Hn H1 H2 H3 order HP))).
+Qed.
+Print Assumptions savi_partition_is_partition.
+
+(* the documented max_diff stopping rule evaluated ON THE CODE-SHAPED SWEEP gives the value bound *)
+Theorem savi_sweep_maxdiff_bound : forall (M : mdp) (g : Q), wf M -> 0 < g -> g < 1 ->
+  forall Vs, fixedpt (nS M) (T M g) Vs ->
+  forall eps zidx pad_wins padval n mb d, n = Z.of_nat (nS M) -> (1 <= n)%Z -> (1 <= mb)%Z -> (1 <= d)%Z ->
+  forall order, Permutation order (seq 0 (nS M)) ->
+  forall sigma V, order = match sigma with Some s => s | None => seq 0 (nS M) end -> (length V = nS M)%nat ->
+  fmaxabs (fun s => qnth (savi_sweep M n mb d zidx pad_wins padval sigma g V) s - qnth V s) (nS M) < thr g eps ->
+  forall s, (s < nS M)%nat -> Qabs (qnth (savi_sweep M n mb d zidx pad_wins padval sigma g V) s - Vs s) < eps.
+Proof. exact savi_sweep_maxdiff_value_bound. Qed.
+Print Assumptions savi_sweep_maxdiff_bound.
+
+(* the per-device half on its own (used by the composition above) *)
+Theorem savi_device_scan_is_block_gs : forall (M : mdp), wf M -> forall g zidx pad_wins padval bs cur f,
   length cur = nS M -> (forall t, (t < nS M)%nat -> qnth cur t == f t) ->
   suffix_ok bs -> (forall s, In s (reals (concat bs)) -> (s < nS M)%nat) -> NoDup (reals (concat bs)) ->
   lleq (sa_device M zidx pad_wins padval g cur bs) (gs_outputs M g padval bs f).
 Proof. exact sa_device_is_gs. Qed.
-Print Assumptions savi_device_scan_is_block_gs_partial.
+Print Assumptions savi_device_scan_is_block_gs.
 
 (* batches after the last real state are all padding and output only padding *)
 Theorem savi_padding_batches_inert : forall (M : mdp) zidx pad_wins padval g bs cur,
@@ -71,4 +110,11 @@ Example c06_example :
   map (fun s => Qred (gs_op c06_M (1#2) [[[0;1]%nat;[2]%nat]] (qnth [0;0;0]) s)) [0;1;2]%nat = [1; 2; 9#2] /\
   savi_sweep c06_M 3 2 1 0%nat false (9#1) (Some [2;0;1]%nat) (1#2) [0;0;0] = [1; 4; 4] /\
   map (fun s => Qred (gs_op c06_M (1#2) [[[2;0]%nat;[1]%nat]] (qnth [0;0;0]) s)) [0;1;2]%nat = [1; 4; 4].
+Proof. vm_compute. repeat split; reflexivity. Qed.
+(* the partition the layout induces: 5 states, batch size 2 on one device; 7 states on 2 devices (64-minimum does not
+   apply below max_batch_size), and a permuted order *)
+Example c06_parts_example :
+  parts_of 5 2 1 (seq 0 5) = [[[0;1];[2;3];[4]]]%nat /\
+  parts_of 7 2 2 (seq 0 7) = [[[0;1];[2;3]];[[4;5];[6]]]%nat /\
+  parts_of 3 2 1 [2;0;1]%nat = [[[2;0];[1]]]%nat.
 Proof. vm_compute. repeat split; reflexivity. Qed.
